@@ -111,6 +111,21 @@ def scene_is_clean(case):
     return True
 
 
+def _hide(inst, pose, on):
+    """Encode the missing nodes of `pose` the way the SLEAP GUI hides a node: finite stored xy, visible=False
+    (`Instance.numpy()` reports NaN for such a node; the raw `points["xy"]` buffer does not)."""
+    if not on:
+        return inst
+    vis = [p for p in pose if p is not None]
+    if not vis:
+        return inst
+    for k, p in enumerate(pose):
+        if p is None:
+            inst.points["xy"][k] = [vis[0][0] + 1.5 * (k + 1), vis[0][1] + 0.5 * (k + 1)]
+            inst.points["visible"][k] = False
+    return inst
+
+
 def build_labels(case, deleted=()):
     import sleap_io as sio
 
@@ -130,12 +145,13 @@ def build_labels(case, deleted=()):
     deleted = {tuple(d) for d in deleted}
     lf_gt, lf_pr = [], []
     for fpos, fr in enumerate(case["frames"]):
-        gi = [sio.Instance.from_numpy(points_data=pose_arr(g), skeleton=skel) for g in fr["gt"]]
+        hid = bool(case.get("hidden_enc"))
+        gi = [_hide(sio.Instance.from_numpy(points_data=pose_arr(g), skeleton=skel), g, hid) for g in fr["gt"]]
         video = vids_gt[fr.get("video", 0)]
         lf_gt.append(sio.LabeledFrame(video=video, frame_idx=fr["idx"], instances=gi))
         if fr["has_pr_frame"]:
             pi = [
-                sio.PredictedInstance.from_numpy(points_data=pose_arr(p["pts"]), skeleton=skel, score=float(p["score"]), point_scores=np.ones(n))
+                _hide(sio.PredictedInstance.from_numpy(points_data=pose_arr(p["pts"]), skeleton=skel, score=float(p["score"]), point_scores=np.ones(n)), p["pts"], hid)
                 for ppos, p in enumerate(fr["pr"])
                 if (fpos, ppos) not in deleted
             ]
@@ -202,6 +218,7 @@ def evaluate(case):
         "match_threshold=0" if case["match_threshold"] == 0 else "match_threshold>0",
         "oks_scale=None" if case["oks_scale"] is None else "oks_scale=scalar",
         f"videos={case.get('videos', 'asset')}",
+        "missing-enc=hidden-with-xy" if case.get("hidden_enc") else "missing-enc=nan",
     )
     fv = [(fr.get("video", 0), fr["idx"]) for fr in case["frames"]]
     if len({i for _, i in fv}) < len(fv):
@@ -489,6 +506,8 @@ def strategy():
             delete = [c for c, fl in zip(cand, flags) if fl] or [cand[draw(st.integers(0, len(cand) - 1))]]
         return {
             "kind": kind,
+            # missing nodes as NaN coordinates, or hidden by the visible flag with finite stored coordinates
+            "hidden_enc": draw(st.sampled_from([False, False, True])),
             "videos": videos,
             "n_nodes": n,
             "frames": frames,
